@@ -7,7 +7,9 @@
                     civil_from_days / days_from_civil are mutually inverse for ALL integers
                     (arithmetic proofs with lia, no enumeration of day ranges)
      3. round trip: parse_rfc3339 (format_utc_seconds t) = Some t   (years 0..9999, i_nsec = 0)
-     4. zone shift, rejection of "", format facts, examples (values observed on go1.24.0) *)
+     4. zone shift, rejection of "", RFC3339Nano round trip, UnmarshalText = Parse (go1.24.0),
+        MarshalText/UnmarshalText round trip, fast path subsumed by the general parser,
+        accepted timestamps are normalised, examples (values observed on go1.24.0) *)
 From V Require Import Base Time.
 Open Scope Z_scope.
 
@@ -513,3 +515,630 @@ Theorem parse_format_utc_roundtrip t :
 Proof.
   intros N H. rewrite (parse_format_utc_seconds_floor t H). destruct t as [s n]. cbn in *. subst n. reflexivity.
 Qed.
+
+(* ====================================================================== *)
+(* 4. Zone offsets, rejection, formatting facts, examples                   *)
+(* ====================================================================== *)
+
+Definition with_off (f : fields) (off : Z) : fields :=
+  {| f_year := f_year f; f_month := f_month f; f_day := f_day f; f_hour := f_hour f;
+     f_min := f_min f; f_sec := f_sec f; f_nsec := f_nsec f; f_off := off |}.
+Definition ishift (t : instant) (d : Z) : instant := {| i_sec := i_sec t + d; i_nsec := i_nsec t |}.
+
+Lemma parse_rfc3339_fields s : parse_rfc3339 s = option_map instant_of_fields (parse_fields s).
+Proof. reflexivity. Qed.
+
+(* The same local fields read with offset [off] denote the instant read with "Z", minus [off]. *)
+Theorem parse_zone_shift f off :
+  instant_of_fields (with_off f off) = ishift (instant_of_fields (with_off f 0)) (- off).
+Proof.
+  unfold instant_of_fields, ishift, with_off.
+  cbn [f_year f_month f_day f_hour f_min f_sec f_nsec f_off i_sec i_nsec]. f_equal. lia.
+Qed.
+
+(* Hence two renderings of one instant with different offsets parse to instants that compare equal:
+   if the local fields differ exactly by the difference of offsets, the instants coincide. *)
+Corollary zone_rendering_irrelevant f g :
+  f_nsec f = f_nsec g ->
+  i_sec (instant_of_fields (with_off f 0)) - f_off f = i_sec (instant_of_fields (with_off g 0)) - f_off g ->
+  instant_of_fields f = instant_of_fields g /\ ieqb (instant_of_fields f) (instant_of_fields g) = true.
+Proof.
+  intros N E.
+  assert (X : instant_of_fields f = instant_of_fields g).
+  { replace f with (with_off f (f_off f)) by (destruct f; reflexivity).
+    replace g with (with_off g (f_off g)) by (destruct g; reflexivity).
+    rewrite (parse_zone_shift f), (parse_zone_shift g). unfold ishift.
+    cbn [i_sec i_nsec] in *. f_equal; [lia|].
+    unfold instant_of_fields, with_off. cbn. exact N. }
+  split; [exact X|]. rewrite X. apply ieqb_spec. reflexivity.
+Qed.
+
+(* String level, canonical renderings: "....+hh:mm" / "....-hh:mm" versus "....Z". *)
+Definition render (y m d hh mi ss : Z) (zone : list ascii) : string :=
+  string_of_list_ascii (D4 y ++ "-"%char :: D2 m ++ "-"%char :: D2 d ++ "T"%char ::
+                        D2 hh ++ ":"%char :: D2 mi ++ ":"%char :: D2 ss ++ zone).
+Definition zone_num (neg : bool) (zh zm : Z) : list ascii :=
+  (if neg then "-"%char else "+"%char) :: D2 zh ++ ":"%char :: D2 zm.
+
+Lemma fast_fields_canonical_tail y m d hh mi ss tail ns z off :
+  0 <= y <= 9999 -> 1 <= m <= 12 -> 1 <= d <= days_in m y ->
+  0 <= hh <= 23 -> 0 <= mi <= 59 -> 0 <= ss <= 59 ->
+  fast_frac tail = (ns, z) -> fast_zone z = Some off ->
+  fast_fields (D4 y ++ "-"%char :: D2 m ++ "-"%char :: D2 d ++ "T"%char ::
+               D2 hh ++ ":"%char :: D2 mi ++ ":"%char :: D2 ss ++ tail) =
+  Some {| f_year := y; f_month := m; f_day := d; f_hour := hh; f_min := mi; f_sec := ss;
+          f_nsec := ns; f_off := off |}.
+Proof.
+  intros Hy Hm Hd Hh Hmi Hs Fz Zz.
+  assert (Hd31 : d <= 99).
+  { rewrite days_in_table in Hd by exact Hm.
+    destruct (m =? 2); [destruct (is_leap y)|destruct (_ || _)]; lia. }
+  pose proof (parse_uint_D4 y 0 9999 Hy Hy) as P1.
+  pose proof (parse_uint_D2 m 1 12 ltac:(lia) Hm) as P2.
+  pose proof (parse_uint_D2 d 1 (days_in m y) ltac:(lia) Hd) as P3.
+  pose proof (parse_uint_D2 hh 0 23 ltac:(lia) Hh) as P4.
+  pose proof (parse_uint_D2 mi 0 59 ltac:(lia) Hmi) as P5.
+  pose proof (parse_uint_D2 ss 0 59 ltac:(lia) Hs) as P6.
+  unfold D4, D2 in *. cbn [app]. unfold fast_fields.
+  rewrite P1, P2. cbv beta iota. rewrite P3, P4, P5, P6. cbv beta iota.
+  rewrite !Ascii.eqb_refl. cbn [andb negb]. rewrite Fz. cbv beta iota. rewrite Zz. reflexivity.
+Qed.
+
+Lemma fast_fields_canonical_zone y m d hh mi ss z off :
+  0 <= y <= 9999 -> 1 <= m <= 12 -> 1 <= d <= days_in m y ->
+  0 <= hh <= 23 -> 0 <= mi <= 59 -> 0 <= ss <= 59 ->
+  fast_frac z = (0, z) -> fast_zone z = Some off ->
+  fast_fields (D4 y ++ "-"%char :: D2 m ++ "-"%char :: D2 d ++ "T"%char ::
+               D2 hh ++ ":"%char :: D2 mi ++ ":"%char :: D2 ss ++ z) =
+  Some {| f_year := y; f_month := m; f_day := d; f_hour := hh; f_min := mi; f_sec := ss;
+          f_nsec := 0; f_off := off |}.
+Proof. intros. apply (fast_fields_canonical_tail y m d hh mi ss z 0 z off); assumption. Qed.
+
+Lemma fast_zone_num neg zh zm : 0 <= zh <= 23 -> 0 <= zm <= 59 ->
+  fast_frac (zone_num neg zh zm) = (0, zone_num neg zh zm) /\
+  fast_zone (zone_num neg zh zm) = Some (if neg then - ((zh * 60 + zm) * 60) else (zh * 60 + zm) * 60).
+Proof.
+  intros Hh Hm. split.
+  - destruct neg; reflexivity.
+  - pose proof (parse_uint_D2 zh 0 23 ltac:(lia) Hh) as P1.
+    pose proof (parse_uint_D2 zm 0 59 ltac:(lia) Hm) as P2.
+    unfold zone_num, D2 in *. cbn [app]. unfold fast_zone. rewrite P1, P2.
+    destruct neg; reflexivity.
+Qed.
+
+Theorem parse_zone_shift_canonical y m d hh mi ss (neg : bool) zh zm :
+  0 <= y <= 9999 -> 1 <= m <= 12 -> 1 <= d <= days_in m y ->
+  0 <= hh <= 23 -> 0 <= mi <= 59 -> 0 <= ss <= 59 -> 0 <= zh <= 23 -> 0 <= zm <= 59 ->
+  let off := if neg then - ((zh * 60 + zm) * 60) else (zh * 60 + zm) * 60 in
+  exists t, parse_rfc3339 (render y m d hh mi ss ["Z"%char]) = Some t /\
+            parse_rfc3339 (render y m d hh mi ss (zone_num neg zh zm)) = Some (ishift t (- off)).
+Proof.
+  intros Hy Hm Hd Hh Hmi Hs Hzh Hzm off.
+  destruct (fast_zone_num neg zh zm Hzh Hzm) as [Fz Zz]. fold off in Zz.
+  unfold parse_rfc3339, parse_fields, render, parse_fields_l.
+  rewrite !list_ascii_of_string_of_list_ascii.
+  rewrite (fast_fields_canonical_zone y m d hh mi ss ["Z"%char] 0) by (auto; reflexivity).
+  rewrite (fast_fields_canonical_zone y m d hh mi ss (zone_num neg zh zm) off) by auto.
+  eexists. split; [reflexivity|]. cbn [option_map]. f_equal.
+  exact (parse_zone_shift {| f_year := y; f_month := m; f_day := d; f_hour := hh; f_min := mi;
+                             f_sec := ss; f_nsec := 0; f_off := 0 |} off).
+Qed.
+
+Theorem parse_rejects_empty : parse_rfc3339 "" = None.
+Proof. reflexivity. Qed.
+
+Lemma zero_time_is_year_1 : format_utc_seconds zero_time = "0001-01-01T00:00:00Z"%string.
+Proof. vm_compute. reflexivity. Qed.
+
+(* RFC3339Nano with no fraction is the seconds format *)
+Lemma format_rfc3339nano_utc_whole t : i_nsec t = 0 -> format_rfc3339nano_utc t = format_utc_seconds t.
+Proof.
+  intros H. unfold format_rfc3339nano_utc, format_utc_seconds, append_nano9. rewrite H. reflexivity.
+Qed.
+
+(* both formats ignore everything but (i_sec, i_nsec); the seconds format ignores i_nsec *)
+Lemma format_utc_seconds_ignores_nsec s n n' :
+  format_utc_seconds {| i_sec := s; i_nsec := n |} = format_utc_seconds {| i_sec := s; i_nsec := n' |}.
+Proof. reflexivity. Qed.
+
+Corollary parse_format_rfc3339nano_whole t :
+  i_nsec t = 0 -> -62167219200 <= i_sec t < 253402300800 ->
+  parse_rfc3339 (format_rfc3339nano_utc t) = Some t.
+Proof. intros N H. rewrite (format_rfc3339nano_utc_whole t N). apply parse_format_utc_roundtrip; assumption. Qed.
+
+
+(* ---------- RFC3339Nano round trip ---------- *)
+(* k least significant decimal digits of u, least significant first *)
+Fixpoint rdigs (k : nat) (u : Z) : list ascii :=
+  match k with
+  | O => []
+  | S k' => digit_char (u mod 10) :: rdigs k' (u / 10)
+  end.
+
+Lemma pow10_succ k : 10 ^ Z.of_nat (S k) = 10 * 10 ^ Z.of_nat k.
+Proof. rewrite Nat2Z.inj_succ, Z.pow_succ_r by lia. reflexivity. Qed.
+
+Lemma pow10_pos k : 0 < 10 ^ Z.of_nat k.
+Proof. apply Z.pow_pos_nonneg; lia. Qed.
+
+Lemma digits_fuel_rdigs k : forall fuel u acc, (k <= fuel)%nat ->
+  0 <= u < 10 ^ Z.of_nat (S k) -> ((1 <= k)%nat -> 10 ^ Z.of_nat k <= u) ->
+  digits_fuel (S fuel) u acc = rev (rdigs (S k) u) ++ acc.
+Proof.
+  induction k as [|k IH]; intros fuel u acc Hk Hu Hlo.
+  - change (10 ^ Z.of_nat 1) with 10 in Hu.
+    cbn [digits_fuel rdigs rev app].
+    replace (u <? 10) with true by (symmetry; apply Z.ltb_lt; lia). reflexivity.
+  - destruct fuel as [|fuel]; [lia|].
+    specialize (Hlo ltac:(lia)).
+    pose proof (pow10_succ k) as E1. pose proof (pow10_succ (S k)) as E2. pose proof (pow10_pos k) as Pk.
+    change (digits_fuel (S (S fuel)) u acc)
+      with (let acc' := digit_char (u mod 10) :: acc in
+            if u <? 10 then acc' else digits_fuel (S fuel) (u / 10) acc').
+    cbv zeta.
+    replace (u <? 10) with false by (symmetry; apply Z.ltb_ge; lia).
+    rewrite (IH fuel (u / 10)).
+    + change (rdigs (S (S k)) u) with (digit_char (u mod 10) :: rdigs (S k) (u / 10)).
+      cbn [rev]. rewrite <- app_assoc. reflexivity.
+    + lia.
+    + split; [apply Z.div_pos; lia|]. apply Z.div_lt_upper_bound; lia.
+    + intros K. apply Z.div_le_lower_bound; [lia|]. rewrite <- (pow10_succ k). exact Hlo.
+Qed.
+
+Lemma rdigs_zero j : rdigs j 0 = repeat "0"%char j.
+Proof. induction j as [|j IH]; [reflexivity|]. cbn [rdigs repeat]. change (0 / 10) with 0. rewrite IH. reflexivity. Qed.
+
+Lemma rdigs_pad k : forall j u, 0 <= u < 10 ^ Z.of_nat k ->
+  rdigs (k + j) u = rdigs k u ++ repeat "0"%char j.
+Proof.
+  induction k as [|k IH]; intros j u Hu.
+  - change (10 ^ Z.of_nat 0) with 1 in Hu. replace u with 0 by lia. apply rdigs_zero.
+  - cbn [Nat.add rdigs app]. f_equal. apply IH.
+    rewrite pow10_succ in Hu. split; [apply Z.div_pos; lia|]. apply Z.div_lt_upper_bound; lia.
+Qed.
+
+Lemma rdigs_length k u : List.length (rdigs k u) = k.
+Proof. revert u. induction k; intros; cbn; auto. Qed.
+
+Lemma rev_repeat {A} (x : A) n : rev (repeat x n) = repeat x n.
+Proof.
+  induction n as [|n IH]; [reflexivity|]. cbn [repeat rev]. rewrite IH.
+  clear IH. induction n; cbn; [reflexivity|]. f_equal. assumption.
+Qed.
+
+(* appendInt(nanosec, 9) is the 9-digit, zero padded decimal *)
+Lemma append_int_9 n : 0 <= n < 1000000000 -> append_int n 9 = rev (rdigs 9 n).
+Proof.
+  intros H. unfold append_int.
+  replace (n <? 0) with false by (symmetry; apply Z.ltb_ge; lia).
+  rewrite Z.abs_eq by lia. cbn [Z.eqb Pos.eqb andb app].
+  assert (K : exists k, (k <= 8)%nat /\ 0 <= n < 10 ^ Z.of_nat (S k) /\ ((1 <= k)%nat -> 10 ^ Z.of_nat k <= n)).
+  { assert (C : n < 10 \/ 10 <= n < 100 \/ 100 <= n < 1000 \/ 1000 <= n < 10000 \/ 10000 <= n < 100000 \/
+                100000 <= n < 1000000 \/ 1000000 <= n < 10000000 \/ 10000000 <= n < 100000000 \/
+                100000000 <= n < 1000000000) by lia.
+    destruct C as [C|[C|[C|[C|[C|[C|[C|[C|C]]]]]]]];
+      [exists 0%nat|exists 1%nat|exists 2%nat|exists 3%nat|exists 4%nat|exists 5%nat|exists 6%nat|exists 7%nat|exists 8%nat];
+      (split; [lia|]); (split; [|intros K]);
+      repeat match goal with |- context [10 ^ Z.of_nat ?e] =>
+        let v := eval vm_compute in (10 ^ Z.of_nat e) in change (10 ^ Z.of_nat e) with v end; lia. }
+  destruct K as (k & Hk & Hu & Hlo).
+  change 20%nat with (S 19). rewrite (digits_fuel_rdigs k 19 n [] ltac:(lia) Hu Hlo).
+  rewrite app_nil_r, rev_length, rdigs_length.
+  replace (Z.to_nat (9 - Z.of_nat (S k))) with (8 - k)%nat by lia.
+  rewrite <- (rev_repeat "0"%char (8 - k)), <- rev_app_distr, <- rdigs_pad by exact Hu.
+  replace (S k + (8 - k))%nat with 9%nat by lia. reflexivity.
+Qed.
+
+Lemma digit_char_eqb_zero d : 0 <= d <= 9 -> Ascii.eqb (digit_char d) "0" = (d =? 0).
+Proof.
+  intros H. destruct (digit_cases d H) as [E|[E|[E|[E|[E|[E|[E|[E|[E|E]]]]]]]]]; subst d; reflexivity.
+Qed.
+
+Lemma mod10_bound u : 0 <= u mod 10 <= 9.
+Proof. pose proof (Z.mod_pos_bound u 10 ltac:(lia)). lia. Qed.
+
+Lemma rdigs_all_digits k : forall u, forallb is_digit (rdigs k u) = true.
+Proof.
+  induction k as [|k IH]; intros u; [reflexivity|]. cbn [rdigs forallb].
+  destruct (digit_char_spec (u mod 10) (mod10_bound u)) as [D _]. rewrite D, IH. reflexivity.
+Qed.
+
+Lemma forallb_rev {A} (f : A -> bool) l : forallb f (rev l) = forallb f l.
+Proof.
+  induction l as [|x l IH]; [reflexivity|]. cbn [rev forallb].
+  rewrite forallb_app, IH. cbn. rewrite andb_true_r. apply andb_comm.
+Qed.
+
+Lemma atoi_acc_app l : forall c x, atoi_acc (l ++ [c]) x = atoi_acc l x * 10 + dval c.
+Proof. induction l as [|a l IH]; intros; cbn [app atoi_acc]; [reflexivity|apply IH]. Qed.
+
+Lemma atoi_rdigs k : forall u, 0 <= u -> atoi_acc (rev (rdigs k u)) 0 = u mod 10 ^ Z.of_nat k.
+Proof.
+  induction k as [|k IH]; intros u Hu.
+  - cbn. rewrite Z.mod_1_r. reflexivity.
+  - cbn [rdigs rev]. rewrite atoi_acc_app, IH by (apply Z.div_pos; lia).
+    destruct (digit_char_spec (u mod 10) (mod10_bound u)) as [_ D]. rewrite D.
+    rewrite pow10_succ. pose proof (pow10_pos k).
+    rewrite (Z.rem_mul_r u 10 (10 ^ Z.of_nat k)) by lia. lia.
+Qed.
+
+(* the trimmed fraction digits: all digits, at least one, at most k, and they denote u *)
+Lemma trim_spec k : forall u, 0 < u < 10 ^ Z.of_nat k ->
+  let t := rev (drop_zeros (rdigs k u)) in
+  forallb is_digit t = true /\ t <> [] /\ (List.length t <= k)%nat /\
+  atoi_acc t 0 * 10 ^ (Z.of_nat k - Z.of_nat (List.length t)) = u.
+Proof.
+  induction k as [|k IH]; intros u Hu t; subst t.
+  - change (10 ^ Z.of_nat 0) with 1 in Hu. lia.
+  - cbn [rdigs drop_zeros]. rewrite digit_char_eqb_zero by apply mod10_bound.
+    rewrite pow10_succ in Hu. pose proof (pow10_pos k) as Pk.
+    destruct (Z.eqb_spec (u mod 10) 0) as [E|E].
+    + assert (Hu' : 0 < u / 10 < 10 ^ Z.of_nat k).
+      { split; [|apply Z.div_lt_upper_bound; lia]. Z.div_mod_to_equations. lia. }
+      destruct (IH (u / 10) Hu') as (A & B & C & D).
+      repeat split; [exact A | exact B | lia |].
+      replace (Z.of_nat (S k) - Z.of_nat (List.length (rev (drop_zeros (rdigs k (u / 10))))))
+        with (Z.succ (Z.of_nat k - Z.of_nat (List.length (rev (drop_zeros (rdigs k (u / 10))))))) by lia.
+      rewrite Z.pow_succ_r by lia.
+      set (X := atoi_acc _ 0) in *. set (Y := 10 ^ _) in *.
+      assert (u = 10 * (u / 10)) by (Z.div_mod_to_equations; lia). nia.
+    + change (digit_char (u mod 10) :: rdigs k (u / 10)) with (rdigs (S k) u).
+      repeat split.
+      * rewrite forallb_rev. apply rdigs_all_digits.
+      * intros N. apply (f_equal (@List.length ascii)) in N. rewrite rev_length, rdigs_length in N. discriminate.
+      * rewrite rev_length, rdigs_length. lia.
+      * rewrite rev_length, rdigs_length, Z.sub_diag, Z.pow_0_r, Z.mul_1_r, atoi_rdigs by lia.
+        rewrite pow10_succ. apply Z.mod_small. lia.
+Qed.
+
+Lemma take_digits_app t : forall r, forallb is_digit t = true ->
+  take_digits (t ++ "Z"%char :: r) = (t, "Z"%char :: r).
+Proof.
+  induction t as [|c t IH]; intros r H.
+  - reflexivity.
+  - cbn [forallb] in H. apply andb_true_iff in H. destruct H as [H1 H2].
+    cbn [app take_digits]. rewrite H1, (IH r H2). reflexivity.
+Qed.
+
+(* the fraction written by appendNano is read back by the fast path *)
+Lemma fast_frac_append_nano9 n : 0 <= n < 1000000000 ->
+  fast_frac (append_nano9 n ++ ["Z"%char]) = (n, ["Z"%char]).
+Proof.
+  intros H. unfold append_nano9.
+  destruct (Z.eqb_spec n 0) as [E|E]; [subst n; reflexivity|].
+  rewrite append_int_9, rev_involutive by exact H.
+  destruct (trim_spec 9 n) as (A & B & C & D).
+  { change (10 ^ Z.of_nat 9) with 1000000000. lia. }
+  set (t := rev (drop_zeros (rdigs 9 n))) in *.
+  destruct t as [|f1 t'] eqn:Et; [congruence|].
+  cbn [app fast_frac tl].
+  assert (F1 : is_digit f1 = true) by (cbn [forallb] in A; apply andb_true_iff in A; tauto).
+  rewrite F1. cbn [Ascii.eqb Bool.eqb andb].
+  change (f1 :: t' ++ ["Z"%char]) with ((f1 :: t') ++ ["Z"%char]).
+  rewrite (take_digits_app (f1 :: t') [] A).
+  unfold parse_nanoseconds. rewrite firstn_all2 by exact C.
+  change (Z.of_nat 9) with 9 in D. rewrite D. reflexivity.
+Qed.
+
+Theorem parse_format_rfc3339nano_roundtrip t :
+  0 <= i_nsec t < 1000000000 -> -62167219200 <= i_sec t < 253402300800 ->
+  parse_rfc3339 (format_rfc3339nano_utc t) = Some t.
+Proof.
+  intros N H. unfold parse_rfc3339, parse_fields, format_rfc3339nano_utc.
+  rewrite list_ascii_of_string_of_list_ascii.
+  destruct (format_date_time_canonical t H) as (y & m & d & hh & mi & ss & R & E & F).
+  rewrite F. unfold parse_fields_l.
+  replace ((D4 y ++ "-"%char :: D2 m ++ "-"%char :: D2 d ++ "T"%char ::
+            D2 hh ++ ":"%char :: D2 mi ++ ":"%char :: D2 ss) ++ append_nano9 (i_nsec t) ++ ["Z"%char])
+    with (D4 y ++ "-"%char :: D2 m ++ "-"%char :: D2 d ++ "T"%char ::
+          D2 hh ++ ":"%char :: D2 mi ++ ":"%char :: D2 ss ++ (append_nano9 (i_nsec t) ++ ["Z"%char]))
+    by reflexivity.
+  rewrite (fast_fields_canonical_tail y m d hh mi ss _ (i_nsec t) ["Z"%char] 0)
+    by (first [tauto | apply fast_frac_append_nano9; exact N | reflexivity]).
+  unfold option_map, instant_of_fields. cbn [f_year f_month f_day f_hour f_min f_sec f_nsec f_off].
+  destruct t as [s n]. cbn [i_sec i_nsec] in *. f_equal. f_equal. lia.
+Qed.
+
+(* ---------- UnmarshalText / MarshalText ---------- *)
+(* go1.24.0: the strict checks of parseStrictRFC3339 are disabled, UnmarshalText = Parse(RFC3339) *)
+Theorem parse_rfc3339_strict_eq s : parse_rfc3339_strict s = parse_rfc3339 s.
+Proof.
+  unfold parse_rfc3339_strict, parse_rfc3339, parse_fields, parse_fields_l. cbv zeta.
+  destruct (fast_fields (list_ascii_of_string s)) as [f|]; [reflexivity|].
+  destruct (option_map instant_of_fields (slow_fields (list_ascii_of_string s))); reflexivity.
+Qed.
+
+Lemma marshal_text_utc_in_range t : -62167219200 <= i_sec t < 253402300800 ->
+  marshal_text_utc t = Some (format_rfc3339nano_utc t).
+Proof.
+  intros H. unfold marshal_text_utc, format_rfc3339nano_utc. cbv zeta.
+  destruct (format_date_time_canonical t H) as (y & m & d & hh & mi & ss & R & E & F).
+  rewrite F. unfold D4. cbn [app nth]. reflexivity.
+Qed.
+
+(* what encoding/xml writes for a UTC time.Time is read back (by encoding/xml) as the same instant *)
+Theorem unmarshal_marshal_text_roundtrip t :
+  0 <= i_nsec t < 1000000000 -> -62167219200 <= i_sec t < 253402300800 ->
+  exists s, marshal_text_utc t = Some s /\ parse_rfc3339_strict s = Some t.
+Proof.
+  intros N H. exists (format_rfc3339nano_utc t). split.
+  - apply marshal_text_utc_in_range. exact H.
+  - rewrite parse_rfc3339_strict_eq. apply parse_format_rfc3339nano_roundtrip; assumption.
+Qed.
+
+(* ---------- the fast path is subsumed by the general parser ---------- *)
+Lemma parse_uint2_inv a b lo hi x : parse_uint [a; b] lo hi = (x, true) ->
+  is_digit a = true /\ is_digit b = true /\ x = dval a * 10 + dval b /\ lo <= x <= hi.
+Proof.
+  unfold parse_uint, pu_acc. destruct (is_digit a); [|discriminate]. destruct (is_digit b); [|discriminate].
+  destruct (Z.ltb_spec ((0 * 10 + dval a) * 10 + dval b) lo); [discriminate|].
+  destruct (Z.ltb_spec hi ((0 * 10 + dval a) * 10 + dval b)); [discriminate|].
+  cbn [orb]. intros E. injection E as <-. repeat split; lia.
+Qed.
+
+Lemma parse_uint4_inv a b c d lo hi x : parse_uint [a; b; c; d] lo hi = (x, true) ->
+  is_digit a = true /\ is_digit b = true /\ is_digit c = true /\ is_digit d = true /\
+  x = atoi_acc [a; b; c; d] 0 /\ lo <= x <= hi.
+Proof.
+  unfold parse_uint, pu_acc, atoi_acc.
+  destruct (is_digit a); [|discriminate]. destruct (is_digit b); [|discriminate].
+  destruct (is_digit c); [|discriminate]. destruct (is_digit d); [|discriminate].
+  set (v := (((0 * 10 + dval a) * 10 + dval b) * 10 + dval c) * 10 + dval d).
+  destruct (Z.ltb_spec v lo); [discriminate|]. destruct (Z.ltb_spec hi v); [discriminate|].
+  cbn [orb]. intros E. injection E as <-. repeat split; lia.
+Qed.
+
+Lemma skip_char_cons c v : skip_char c (c :: v) = Some v.
+Proof. unfold skip_char. rewrite Ascii.eqb_refl. reflexivity. Qed.
+
+Lemma getnum2 a b v fixed : is_digit a = true -> is_digit b = true ->
+  getnum (a :: b :: v) fixed = Some (dval a * 10 + dval b, v).
+Proof. intros A B. unfold getnum. rewrite A, B. reflexivity. Qed.
+
+Lemma zone_agree z off : fast_zone z = Some off -> slow_zone z = Some (off, []).
+Proof.
+  intros H.
+  destruct z as [|a [|b [|c [|d [|e [|f [|g z]]]]]]]; try discriminate H.
+  - (* "Z" *) unfold fast_zone in H. unfold slow_zone.
+    destruct (Ascii.eqb a "Z"); [|discriminate]. injection H as <-. reflexivity.
+  - unfold fast_zone in H.
+    destruct (parse_uint [b; c] 0 23) as [hr ok1] eqn:E1.
+    destruct (parse_uint [e; f] 0 59) as [mm ok2] eqn:E2.
+    destruct ok1; [|discriminate H]. destruct ok2; [|discriminate H].
+    apply parse_uint2_inv in E1. apply parse_uint2_inv in E2.
+    destruct E1 as (B1 & B2 & -> & R1). destruct E2 as (C1 & C2 & -> & R2).
+    cbn [andb] in H.
+    destruct (Ascii.eqb_spec d ":") as [->|]; [|rewrite andb_false_r in H; discriminate H].
+    rewrite andb_true_r in H.
+    unfold slow_zone. rewrite Ascii.eqb_refl. cbn [negb].
+    rewrite (getnum2 b c [] true B1 B2), (getnum2 e f [] true C1 C2).
+    replace (24 <? dval b * 10 + dval c) with false by (symmetry; apply Z.ltb_ge; lia).
+    replace (60 <? dval e * 10 + dval f) with false by (symmetry; apply Z.ltb_ge; lia).
+    cbn [orb].
+    destruct (Ascii.eqb_spec a "-") as [->|N1].
+    + cbn in H |- *. injection H as <-. reflexivity.
+    + destruct (Ascii.eqb_spec a "+") as [->|N2]; [|discriminate H].
+      cbn in H |- *. injection H as <-. reflexivity.
+Qed.
+
+Lemma frac_agree rest nsec rest' off :
+  fast_frac rest = (nsec, rest') -> fast_zone rest' = Some off -> slow_frac rest = (nsec, rest').
+Proof.
+  intros F Z. destruct rest as [|sep [|f1 r]]; try exact F.
+  unfold fast_frac in F. unfold slow_frac, comma_or_period.
+  destruct (Ascii.eqb_spec sep ".") as [->|N].
+  - cbn [orb andb] in *. exact F.
+  - cbn [orb andb] in *. injection F as <- <-.
+    destruct (Ascii.eqb_spec sep ",") as [->|N2]; [|reflexivity].
+    exfalso. clear N.
+    destruct r as [|c [|d [|e [|f [|g r]]]]]; try discriminate Z.
+    unfold fast_zone in Z.
+    destruct (parse_uint [f1; c] 0 23) as [? []]; destruct (parse_uint [e; f] 0 59) as [? []]; discriminate Z.
+Qed.
+
+Theorem fast_fields_slow_fields l f : fast_fields l = Some f -> slow_fields l = Some f.
+Proof.
+  intros H.
+  destruct l as [|y1 [|y2 [|y3 [|y4 [|c4 [|m1 [|m2 [|c7 [|d1 [|d2 [|c10 [|h1 [|h2 [|c13 [|n1 [|n2 [|c16 [|s1 [|s2 rest]]]]]]]]]]]]]]]]]]];
+    try discriminate H.
+  unfold fast_fields in H.
+  destruct (parse_uint [y1; y2; y3; y4] 0 9999) as [year ok1] eqn:E1.
+  destruct (parse_uint [m1; m2] 1 12) as [month ok2] eqn:E2.
+  destruct (parse_uint [d1; d2] 1 (days_in month year)) as [day ok3] eqn:E3.
+  destruct (parse_uint [h1; h2] 0 23) as [hour ok4] eqn:E4.
+  destruct (parse_uint [n1; n2] 0 59) as [mi ok5] eqn:E5.
+  destruct (parse_uint [s1; s2] 0 59) as [sec ok6] eqn:E6.
+  destruct ok1; [|discriminate H]. destruct ok2; [|discriminate H]. destruct ok3; [|discriminate H].
+  destruct ok4; [|discriminate H]. destruct ok5; [|discriminate H]. destruct ok6; [|discriminate H].
+  cbn [andb] in H.
+  destruct (Ascii.eqb_spec c4 "-") as [->|]; [|discriminate H].
+  destruct (Ascii.eqb_spec c7 "-") as [->|]; [|discriminate H].
+  destruct (Ascii.eqb_spec c10 "T") as [->|]; [|discriminate H].
+  destruct (Ascii.eqb_spec c13 ":") as [->|]; [|discriminate H].
+  destruct (Ascii.eqb_spec c16 ":") as [->|]; [|discriminate H].
+  cbn [andb negb] in H.
+  destruct (fast_frac rest) as [nsec rest'] eqn:EF.
+  destruct (fast_zone rest') as [off|] eqn:EZ; [|discriminate H].
+  injection H as <-.
+  apply parse_uint4_inv in E1. destruct E1 as (Y1 & Y2 & Y3 & Y4 & Ey & Ry).
+  apply parse_uint2_inv in E2. destruct E2 as (M1 & M2 & Em & Rm).
+  apply parse_uint2_inv in E3. destruct E3 as (D1 & D2 & Ed & Rd).
+  apply parse_uint2_inv in E4. destruct E4 as (H1 & H2 & Eh & Rh).
+  apply parse_uint2_inv in E5. destruct E5 as (N1 & N2 & En & Rn).
+  apply parse_uint2_inv in E6. destruct E6 as (S1 & S2 & Es & Rs).
+  unfold slow_fields. rewrite Y1, Y2, Y3, Y4. cbn [andb negb].
+  rewrite <- Ey.
+  rewrite skip_char_cons, (getnum2 m1 m2 _ true M1 M2), <- Em.
+  replace (month <=? 0) with false by (symmetry; apply Z.leb_gt; lia).
+  replace (12 <? month) with false by (symmetry; apply Z.ltb_ge; lia).
+  cbn [orb].
+  rewrite skip_char_cons, (getnum2 d1 d2 _ true D1 D2), <- Ed.
+  rewrite skip_char_cons, (getnum2 h1 h2 _ false H1 H2), <- Eh.
+  replace (24 <=? hour) with false by (symmetry; apply Z.leb_gt; lia).
+  rewrite skip_char_cons, (getnum2 n1 n2 _ true N1 N2), <- En.
+  replace (60 <=? mi) with false by (symmetry; apply Z.leb_gt; lia).
+  rewrite skip_char_cons, (getnum2 s1 s2 _ true S1 S2), <- Es.
+  replace (60 <=? sec) with false by (symmetry; apply Z.leb_gt; lia).
+  rewrite (frac_agree rest nsec rest' off EF EZ), (zone_agree rest' off EZ).
+  replace (day <? 1) with false by (symmetry; apply Z.ltb_ge; lia).
+  replace (days_in month year <? day) with false by (symmetry; apply Z.ltb_ge; lia).
+  reflexivity.
+Qed.
+
+(* consequently time.Parse(RFC3339) is the general layout parser alone; the fast path is an optimisation *)
+Corollary parse_fields_l_slow l : parse_fields_l l = slow_fields l.
+Proof.
+  unfold parse_fields_l. destruct (fast_fields l) as [f|] eqn:E; [|reflexivity].
+  symmetry. apply fast_fields_slow_fields. exact E.
+Qed.
+
+Corollary parse_rfc3339_slow s :
+  parse_rfc3339 s = option_map instant_of_fields (slow_fields (list_ascii_of_string s)).
+Proof. unfold parse_rfc3339, parse_fields. rewrite parse_fields_l_slow. reflexivity. Qed.
+
+(* ---------- accepted timestamps give normalised instants ---------- *)
+Lemma dval_digit c : is_digit c = true -> 0 <= dval c <= 9.
+Proof. unfold is_digit, dval. intros H. apply andb_true_iff in H. destruct H as [A B]. apply Z.leb_le in A, B. lia. Qed.
+
+Lemma atoi_acc_bound l : forallb is_digit l = true -> forall x, 0 <= x ->
+  0 <= atoi_acc l x < (x + 1) * 10 ^ Z.of_nat (List.length l).
+Proof.
+  induction l as [|c l IH]; intros D x Hx.
+  - cbn. lia.
+  - cbn [forallb] in D. apply andb_true_iff in D. destruct D as [Dc Dl].
+    pose proof (dval_digit c Dc) as Bc.
+    cbn [atoi_acc List.length]. rewrite Nat2Z.inj_succ, Z.pow_succ_r by lia.
+    specialize (IH Dl (x * 10 + dval c) ltac:(lia)).
+    pose proof (Z.pow_pos_nonneg 10 (Z.of_nat (List.length l)) ltac:(lia) ltac:(lia)). nia.
+Qed.
+
+Lemma take_digits_digits l : forallb is_digit (fst (take_digits l)) = true.
+Proof.
+  induction l as [|c l IH]; [reflexivity|]. cbn [take_digits].
+  destruct (is_digit c) eqn:E; [|reflexivity].
+  destruct (take_digits l) as [a b]. cbn [fst forallb] in *. rewrite E, IH. reflexivity.
+Qed.
+
+Lemma forallb_firstn {A} (f : A -> bool) n : forall l, forallb f l = true -> forallb f (firstn n l) = true.
+Proof.
+  induction n as [|n IH]; intros [|x l] H; try reflexivity.
+  cbn [firstn forallb] in *. apply andb_true_iff in H. destruct H as [H1 H2]. rewrite H1, (IH l H2). reflexivity.
+Qed.
+
+Lemma parse_nanoseconds_bound ds : forallb is_digit ds = true -> 0 <= parse_nanoseconds ds < 1000000000.
+Proof.
+  intros D. unfold parse_nanoseconds.
+  set (ds9 := firstn 9 ds).
+  assert (L : (List.length ds9 <= 9)%nat) by (subst ds9; apply firstn_le_length).
+  pose proof (atoi_acc_bound ds9 (forallb_firstn _ 9 ds D) 0 ltac:(lia)) as B.
+  set (n := Z.of_nat (List.length ds9)) in *.
+  assert (Hn : 0 <= n <= 9) by lia.
+  assert (P : 10 ^ n * 10 ^ (9 - n) = 1000000000).
+  { rewrite <- Z.pow_add_r by lia. replace (n + (9 - n)) with 9 by lia. reflexivity. }
+  pose proof (Z.pow_pos_nonneg 10 (9 - n) ltac:(lia) ltac:(lia)).
+  pose proof (Z.pow_pos_nonneg 10 n ltac:(lia) ltac:(lia)). nia.
+Qed.
+
+Lemma slow_frac_bound v : 0 <= fst (slow_frac v) < 1000000000.
+Proof.
+  unfold slow_frac. destruct v as [|sep [|f1 r]]; cbn [fst]; try lia.
+  destruct (comma_or_period sep && is_digit f1); cbn [fst]; [|lia].
+  pose proof (take_digits_digits (tl (sep :: f1 :: r))) as D.
+  destruct (take_digits (tl (sep :: f1 :: r))) as [ds r']. cbn [fst] in *.
+  apply parse_nanoseconds_bound. exact D.
+Qed.
+
+Ltac invert_step H :=
+  match type of H with
+  | context [match ?x with _ => _ end] => destruct x eqn:?; try discriminate H
+  end.
+
+Lemma slow_fields_nsec l f : slow_fields l = Some f -> 0 <= f_nsec f < 1000000000.
+Proof.
+  intros H. unfold slow_fields in H.
+  repeat invert_step H.
+  injection H as <-. cbn [f_nsec].
+  match goal with E : slow_frac ?v = (?n, _) |- _ => pose proof (slow_frac_bound v) as B; rewrite E in B; exact B end.
+Qed.
+
+(* every accepted timestamp yields a normalised instant *)
+Theorem parse_rfc3339_normalised s t : parse_rfc3339 s = Some t -> normalised t.
+Proof.
+  rewrite parse_rfc3339_slow. intros H.
+  destruct (slow_fields (list_ascii_of_string s)) as [f|] eqn:E; [|discriminate H].
+  injection H as <-. unfold normalised, instant_of_fields. cbn [i_nsec].
+  apply (slow_fields_nsec _ _ E).
+Qed.
+
+Corollary parse_rfc3339_strict_normalised s t : parse_rfc3339_strict s = Some t -> normalised t.
+Proof. rewrite parse_rfc3339_strict_eq. apply parse_rfc3339_normalised. Qed.
+
+(* ---------- examples: the right-hand sides were observed on go1.24.0 (harness/cmd/timediff) ---------- *)
+Local Open Scope string_scope.
+Definition P (s : string) : option (Z * Z) :=
+  option_map (fun t => (i_sec t, i_nsec t)) (parse_rfc3339 s).
+
+Example ex_basic      : P "2024-01-02T03:04:05Z" = Some (1704164645, 0).            Proof. vm_compute. reflexivity. Qed.
+Example ex_offset_pos : P "2024-01-02T03:04:05.5+01:00" = Some (1704161045, 500000000). Proof. vm_compute. reflexivity. Qed.
+Example ex_offset_neg : P "2024-01-02T03:04:05-23:59" = Some (1704250985, 0).       Proof. vm_compute. reflexivity. Qed.
+Example ex_frac_trunc : P "2024-01-02T03:04:05.123456789999Z" = Some (1704164645, 123456789). Proof. vm_compute. reflexivity. Qed.
+Example ex_leap_day   : P "2024-02-29T00:00:00Z" = Some (1709164800, 0).            Proof. vm_compute. reflexivity. Qed.
+Example ex_no_leap    : P "2023-02-29T00:00:00Z" = None.                            Proof. vm_compute. reflexivity. Qed.
+(* lenient forms accepted only by the general parser *)
+Example ex_hour1      : P "2024-01-02T3:04:05+01:00" = Some (1704161045, 0).        Proof. vm_compute. reflexivity. Qed.
+Example ex_comma      : P "2024-01-02T3:04:05,25-07:00" = Some (1704189845, 250000000). Proof. vm_compute. reflexivity. Qed.
+Example ex_zone_24    : P "2024-01-02T03:04:05+24:00" = Some (1704078245, 0).       Proof. vm_compute. reflexivity. Qed.
+Example ex_zone_2460  : P "2024-01-02T03:04:05,5+24:60" = Some (1704074645, 500000000). Proof. vm_compute. reflexivity. Qed.
+Example ex_year0_2460 : P "0000-01-01T00:00:00+24:60" = Some (-62167309200, 0).     Proof. vm_compute. reflexivity. Qed.
+Example ex_max        : P "9999-12-31T23:59:59.999999999-23:59" = Some (253402387139, 999999999). Proof. vm_compute. reflexivity. Qed.
+(* rejected *)
+Example ex_zone_25    : P "2024-01-02T03:04:05+25:00" = None.                       Proof. vm_compute. reflexivity. Qed.
+Example ex_lower_t    : P "2024-01-02t03:04:05Z" = None.                            Proof. vm_compute. reflexivity. Qed.
+Example ex_no_zone    : P "2024-01-02T03:04:05" = None.                             Proof. vm_compute. reflexivity. Qed.
+Example ex_trailing   : P "2024-01-02T03:04:05Z " = None.                           Proof. vm_compute. reflexivity. Qed.
+Example ex_sec_60     : P "2024-01-02T03:04:60Z" = None.                            Proof. vm_compute. reflexivity. Qed.
+Example ex_hour_24    : P "2024-01-02T24:00:00Z" = None.                            Proof. vm_compute. reflexivity. Qed.
+Example ex_dot_only   : P "2024-01-02T03:04:05.Z" = None.                           Proof. vm_compute. reflexivity. Qed.
+(* formatting *)
+Example ex_fmt_sec    : format_utc_seconds {| i_sec := 1704164645; i_nsec := 123456789 |} = "2024-01-02T03:04:05Z".
+Proof. vm_compute. reflexivity. Qed.
+Example ex_fmt_nano   : format_rfc3339nano_utc {| i_sec := 1704164645; i_nsec := 120000000 |} = "2024-01-02T03:04:05.12Z".
+Proof. vm_compute. reflexivity. Qed.
+Example ex_fmt_nano2  : format_rfc3339nano_utc {| i_sec := 1704164645; i_nsec := 100 |} = "2024-01-02T03:04:05.0000001Z".
+Proof. vm_compute. reflexivity. Qed.
+Example ex_fmt_neg    : format_utc_seconds {| i_sec := -62167219201; i_nsec := 0 |} = "-0001-12-31T23:59:59Z".
+Proof. vm_compute. reflexivity. Qed.
+Example ex_fmt_max    : format_rfc3339nano_utc {| i_sec := 253402300799; i_nsec := 999999999 |} = "9999-12-31T23:59:59.999999999Z".
+Proof. vm_compute. reflexivity. Qed.
+
+(* UnmarshalText (go1.24.0) accepts the lenient forms too; MarshalText refuses years outside 0..9999 *)
+Example ex_strict_lenient : option_map (fun t => (i_sec t, i_nsec t)) (parse_rfc3339_strict "2024-01-02T3:04:05,25-07:00")
+                            = Some (1704189845, 250000000).
+Proof. vm_compute. reflexivity. Qed.
+Example ex_strict_2460 : option_map (fun t => (i_sec t, i_nsec t)) (parse_rfc3339_strict "2024-01-02T03:04:05,5+24:60")
+                         = Some (1704074645, 500000000).
+Proof. vm_compute. reflexivity. Qed.
+Example ex_marshal_10000 : marshal_text_utc {| i_sec := 253402300800; i_nsec := 0 |} = None
+                           /\ format_utc_seconds {| i_sec := 253402300800; i_nsec := 0 |} = "10000-01-01T00:00:00Z".
+Proof. vm_compute. split; reflexivity. Qed.
+Example ex_marshal_neg : marshal_text_utc {| i_sec := -62167219201; i_nsec := 0 |} = None.
+Proof. vm_compute. reflexivity. Qed.
+
+(* ---------- axiom audit ---------- *)
+Print Assumptions ibefore_spec.
+Print Assumptions ibefore_false_iff.
+Print Assumptions instant_trichotomy.
+Print Assumptions civil_from_days_valid.
+Print Assumptions civil_from_days_from_civil.
+Print Assumptions parse_format_utc_seconds_floor.
+Print Assumptions parse_format_utc_roundtrip.
+Print Assumptions parse_zone_shift.
+Print Assumptions parse_zone_shift_canonical.
+Print Assumptions parse_rejects_empty.
+Print Assumptions parse_format_rfc3339nano_roundtrip.
+Print Assumptions parse_rfc3339_strict_eq.
+Print Assumptions unmarshal_marshal_text_roundtrip.
+Print Assumptions fast_fields_slow_fields.
+Print Assumptions parse_rfc3339_slow.
+Print Assumptions parse_rfc3339_normalised.
+Print Assumptions ex_zone_2460.
